@@ -21,7 +21,7 @@ CLAIMS = {
             "explicit panic / dropped error is reachable from the file-reading entry points, and that every index / slice of a "
             "byte buffer on those paths is in range by a dominating comparison on the same buffer (exceptions listed with "
             "reasons).  Does not decide detection of every flip nor integer-overflow panics.", "§4 C09, §9.1"),
-    "C12": ("ORDER/GUARDED/ORIGIN over the log writer and reader CFGs; writer/reader discriminant table agreement; R-ERR + explicit-panic + implicit-bounds audit",
+    "C12": ("ORDER/GUARDED/ORIGIN over the log writer and reader CFGs; writer/reader discriminant table agreement; R-ERR + explicit-panic + implicit-bounds audit; re-evaluates C02.1 (ack after covering fdatasync, offset covers the batch) and C18.1 (queue hand-off)",
             "Decides: append acknowledges only after the covering fdatasync; frame CRC gate and header size bounds dominate "
             "the hand-out; the discriminants written equal those accepted and FIRST is completed only by SECOND; split "
             "records are written header/payload/pad/header/payload after the size checks; failures poison the builder; no "
@@ -64,7 +64,7 @@ CLAIMS = {
             "raw derefs only under the cache lock; a wait that re-waits on a private predicate is used only where every writer of "
             "that predicate holds the mutex slept with, every other wait is re-entered in a loop.  Does not decide "
             "exactly-once/ordering under all interleavings.", "§4 C18"),
-    "C20": ("whole-program Acquires/MayWait summaries (call graph + typed Drop glue) -> lock-order graph cycles; condvar wait/notify discipline via HELD; ORDER/MUSTPASS for announcements and claim release",
+    "C20": ("whole-program Acquires/MayWait summaries (call graph + typed Drop glue) -> lock-order graph cycles; condvar wait/notify discipline via HELD (Mutex and RwLock guards); ORDER/MUSTPASS for announcements and claim release; re-evaluates the coalescing-queue and wait-list rules C18.1/2/5 that every write passes through",
             "Decides deadlock-freedom structure: no two locks are taken in both orders (one flag-gated pair checked and excepted), "
             "waits re-check their predicate inside one critical section, notifications cannot race a predicate check, the set of "
             "(lock held, condvar waited) pairs equals a triaged table, every awaited state change is announced, failed compactions "
